@@ -508,6 +508,19 @@ def replay(case, params, v):
         if not np.allclose(e5, 2 * e1, equal_nan=True, rtol=1e-9):
             fails.append("doubling the flow rate gives %r, expected %r" % (
                 e5.tolist(), (2 * e1).tolist()))
+        # joint geometric rescaling (lengths x k, flow rate x k^3) leaves
+        # the modulus unchanged
+        for k in (2.0, 0.5):
+            pw = 2 if p["featx"] == "area_um" else 3
+            kwk = dict(kw, channel_width=L * k, flow_rate=Q * k ** 3,
+                       px_um=px * k)
+            kwk["area_um" if pw == 2 else "volume"] = x * k ** pw
+            ek = ge(medium=eta, temperature=None, visc_model=None, **kwk)
+            if not np.allclose(ek, e1, equal_nan=True, rtol=1e-9):
+                fails.append("joint rescaling by %g (pixel size %g -> %g) "
+                             "changes the modulus from %r to %r" % (
+                                 k, px, px * k, e1.tolist(), ek.tolist()))
+                break
         # single event vs batch
         for i in range(len(x)):
             kws = dict(kw)
@@ -549,7 +562,9 @@ def replay(case, params, v):
     if not fails:
         return {"reproduced": False, "key": "not-reproduced",
                 "detail": "laws hold on the real code with real scipy"}
-    return {"reproduced": True, "key": "get_emodulus|" + fails[0][:40],
+    key = "joint-rescaling" if fails[0].startswith("joint rescaling") \
+        else fails[0][:40]
+    return {"reproduced": True, "key": "get_emodulus|" + key,
             "detail": fails[0]}
 
 
